@@ -2,3 +2,19 @@
 ;; type profile.Message
 (declare-fun yamlValueFor (Int Any) Int)             ; node paired with the first key equal to the given key in a mapping node (0 if none)
 (declare-fun parseMsg (String) S_profile_Message)    ; ParseMessageExpression as a function of its text (regexp is deterministic)
+; level lists: the names of the rules produced for a level are the listed names that are strings and are defined under
+; `validations`, in list order (listedDefined is a filter-map over the content sequence, defined by its empty/snoc equations)
+;; type []*yaml.Node
+;; type yaml.Node
+;; type profile.TopLevelExpression
+;; type []profile.Rule
+;; type []string
+;; box string
+;; box profile.TopLevelExpression
+(declare-fun ruleNames (Seq_Any) Seq_String)
+(assert (= (ruleNames empty_Any) empty_String))
+(assert (forall ((s Seq_Any) (x Any)) (! (= (ruleNames (snoc_Any s x)) (snoc_String (ruleNames s) (|S_profile_BaseStatement.Name| (|S_profile_Expression.BaseStatement| (|S_profile_TopLevelExpression.Expression| (unbox_profile_TopLevelExpression x)))))) :pattern ((ruleNames (snoc_Any s x))))))
+(define-fun listedOk ((n S_yaml_Node) (vref Int)) Bool (and (= (|S_yaml_Node.Kind| n) 8) (= (|S_yaml_Node.Tag| n) "!!str") (not (= (yamlValueFor vref (box_string (|S_yaml_Node.Value| n))) 0))))
+(declare-fun listedDefined (Seq_RH_yaml_Node (Array Int S_yaml_Node) Int) Seq_String)
+(assert (forall ((h (Array Int S_yaml_Node)) (v Int)) (! (= (listedDefined empty_RH_yaml_Node h v) empty_String) :pattern ((listedDefined empty_RH_yaml_Node h v)))))
+(assert (forall ((s Seq_RH_yaml_Node) (n Int) (h (Array Int S_yaml_Node)) (v Int)) (! (= (listedDefined (snoc_RH_yaml_Node s n) h v) (ite (and (not (= n 0)) (listedOk (select h n) v)) (snoc_String (listedDefined s h v) (|S_yaml_Node.Value| (select h n))) (listedDefined s h v))) :pattern ((listedDefined (snoc_RH_yaml_Node s n) h v)))))
